@@ -429,6 +429,11 @@ pub fn nest_model(d: &NestDef, argv: &[Tok]) -> Option<Val> {
 }
 
 fn judge_nest(d: &NestDef, unit: &Value, p: &bpaf::OptionParser<Val>, argv: &[Tok], ctx: &mut Ctx) {
+    judge_nest_as("C19", d, unit, p, argv, ctx)
+}
+
+/// the same comparison reported under another property (C08 runs the adjacent-command family too)
+pub fn judge_nest_as(prop: &str, d: &NestDef, unit: &Value, p: &bpaf::OptionParser<Val>, argv: &[Tok], ctx: &mut Ctx) {
     let m = nest_model(d, argv);
     let r = run(p, argv);
     let ok = match (&m, &r) {
@@ -450,7 +455,7 @@ fn judge_nest(d: &NestDef, unit: &Value, p: &bpaf::OptionParser<Val>, argv: &[To
     sig.insert("model".to_string(), if m.is_some() { "accept" } else { "reject" }.to_string());
     sig.insert("observed".to_string(), r.class().to_string());
     ctx.violation(Violation {
-        property: "C19".into(),
+        property: prop.into(),
         rule: if m.is_some() { "contiguous-blocks-accepted-with-block-values" } else { "interrupted-or-short-block-fails" }.into(),
         sig,
         unit: unit.clone(),
